@@ -25,6 +25,7 @@ def dispatch (line : String) : String :=
   | "visitsrc" :: args => Driver.VisitD.handleSrc args
   | "parsestep" :: args => Driver.ParseStepD.handle args
   | "parsewf" :: args => Driver.ParseWfD.handle args
+  | "lintwf" :: args => Driver.ParseWfD.handleLint args
   | "lintsort" :: args => Driver.LintD.handleSort args
   | "relpath" :: args => Driver.LintD.handleRel args
   | "projectat" :: args => Driver.LintD.handleProjectAt args
